@@ -216,6 +216,11 @@ func (p *c17) requiredFields(x *res, ctx *runner.Ctx) {
 		{"put-empty-table-name", adapt.Op{Kind: adapt.OpPut, Table: "", Item: val.Item{"h": val.Str("k")}}},
 		{"scan-empty-table-name", adapt.Op{Kind: adapt.OpScan, Table: ""}},
 		{"batchwrite-empty", adapt.Op{Kind: adapt.OpBatchWrite}},
+		// table metadata without the names the SDK marks as required (nil pointers in the request structures)
+		{"create-gsi-without-name", adapt.Op{Kind: adapt.OpCreateTable, Spec: &adapt.TableSpec{Name: "tbl17x", Hash: "h", Billing: "PAY_PER_REQUEST", Indexes: []adapt.IndexSpec{{Name: "", Hash: "g"}}}}},
+		{"create-lsi-without-name", adapt.Op{Kind: adapt.OpCreateTable, Spec: &adapt.TableSpec{Name: "tbl17x", Hash: "h", Range: "r", Billing: "PAY_PER_REQUEST", Indexes: []adapt.IndexSpec{{Name: "", Hash: "h", Range: "g", Local: true}}}}},
+		{"updatetable-create-index-without-name", adapt.Op{Kind: adapt.OpUpdateTable, Table: spec.Name, Chg: []adapt.IndexChange{{Create: &adapt.IndexSpec{Name: "", Hash: "g"}}}}},
+		{"updatetable-delete-without-name", adapt.Op{Kind: adapt.OpUpdateTable, Table: spec.Name, Chg: []adapt.IndexChange{{DeleteUnnamed: true}}}},
 		// requests with TWO defects: which one is reported does not depend on the client
 		{"put-missing-table-and-unused-value", adapt.Op{Kind: adapt.OpPut, Table: "nosuchtable17", Item: val.Item{"h": val.Str("k")}, Cond: "attribute_not_exists(h)", Values: val.Item{":unused": val.Num("1")}}},
 		{"put-missing-table-and-unused-name", adapt.Op{Kind: adapt.OpPut, Table: "nosuchtable17", Item: val.Item{"h": val.Str("k")}, Cond: "attribute_not_exists(h)", Names: map[string]string{"#unused": "status"}}},
